@@ -5,7 +5,10 @@
    auto_up/auto_down, validate, _validate_async, validate_and_handle,
    append_to_history), of history.py (History.load / get_strings /
    append_string, InMemoryHistory) and of the end-of-history readline command.
-   Every function follows the Python statement by statement.
+   Every function follows the Python statement by statement, as it stands in
+   /repo now (after the fix: commits f4f2a3a get_strings() loads first, cb187ee
+   count 0 / negative counts, 46fed32 cursor up/down with counts below 1); the
+   two repaired functions are kept as `_pinned` definitions.
 
    Outside the model: completion state and selection state (both assumed
    absent: auto_up/auto_down take their history branch), read-only buffers,
@@ -64,8 +67,15 @@ Definition text (s : hs) : str :=
   match index (wl s) (wi s) with Some t => t | None => [] end.
 Definition sdoc (s : hs) : doc := mkdoc (text s) (cur s).
 
-(* History.get_strings() *)
-Definition get_strings (h : hstore) : list str := rev (ls h).
+(* History._ensure_loaded: fills _loaded_strings from the backend when that did
+   not happen yet *)
+Definition ensure_loaded (h : hstore) : hstore :=
+  if loaded h then h else mkst (rev (sto h)) (sto h) true.
+
+(* what History.get_strings() returns (it calls _ensure_loaded first); the
+   harness observes [loaded_view], the raw list, which has no side effect *)
+Definition get_strings (h : hstore) : list str := rev (ls (ensure_loaded h)).
+Definition loaded_view (h : hstore) : list str := rev (ls h).
 
 (* _cursor_position_changed: only preferred_column is modelled *)
 Definition cursor_changed (s : hs) : hs := set_pref s None.
@@ -130,7 +140,8 @@ Fixpoint nav_loop (c : cfg) (idxs : list Z) (s : hs) (count : Z) (found : bool) 
       if c1 =? 0 then (s1, f1) else nav_loop c r s1 c1 f1
   end.
 
-Definition history_forward (c : cfg) (s : hs) (count : Z) : hs :=
+(* the bodies of history_forward / history_backward for a positive count *)
+Definition history_forward_pos (c : cfg) (s : hs) (count : Z) : hs :=
   let s0 := set_history_search s in
   let '(s1, found) := nav_loop c (range_up (wi s0 + 1) (len (wl s0))) s0 count false in
   if found then
@@ -138,10 +149,25 @@ Definition history_forward (c : cfg) (s : hs) (count : Z) : hs :=
     set_cursor s2 (cur s2 + get_end_of_line_position (sdoc s2))
   else s1.
 
-Definition history_backward (c : cfg) (s : hs) (count : Z) : hs :=
+Definition history_backward_pos (c : cfg) (s : hs) (count : Z) : hs :=
   let s0 := set_history_search s in
   let '(s1, found) := nav_loop c (range_down (wi s0 - 1)) s0 count false in
   if found then set_cursor s1 (len (text s1)) else s1.
+
+(* count == 0: nothing at all; count < 0: the other direction with -count *)
+Definition history_forward (c : cfg) (s : hs) (count : Z) : hs :=
+  if count =? 0 then s
+  else if count <? 0 then history_backward_pos c s (- count)
+  else history_forward_pos c s count.
+
+Definition history_backward (c : cfg) (s : hs) (count : Z) : hs :=
+  if count =? 0 then s
+  else if count <? 0 then history_forward_pos c s (- count)
+  else history_backward_pos c s count.
+
+(* as it stood before the count fix (finding C14-F2, repaired in /repo) *)
+Definition history_forward_pinned := history_forward_pos.
+Definition history_backward_pinned := history_backward_pos.
 
 Definition go_to_history (c : cfg) (s : hs) (i : Z) : hs :=
   if i <? len (wl s) then
@@ -160,39 +186,41 @@ Definition original_column (s : hs) : Z :=
   | None => cursor_position_col (sdoc s)
   end.
 
-(* cursor_up / cursor_down; get_cursor_{up,down}_position assert count >= 1
-   before anything is modified *)
-Definition cursor_up (s : hs) (count : Z) : option hs :=
-  if count <? 1 then None
-  else
-    let oc := original_column s in
-    let d := sdoc s in
-    let delta := translate_row_col_to_index d (Z.max 0 (cursor_position_row d - count)) oc - cur s in
-    Some (set_pref (set_cursor s (cur s + delta)) (Some oc)).
+(* Document.get_cursor_up_position / get_cursor_down_position: a negative
+   count moves the other way; count 0 stays on the row (at the column). *)
+Definition up_delta (d : doc) (count col : Z) : Z :=
+  translate_row_col_to_index d (Z.max 0 (cursor_position_row d - count)) col - dcur d.
+Definition down_delta (d : doc) (count col : Z) : Z :=
+  translate_row_col_to_index d (cursor_position_row d + count) col - dcur d.
+Definition get_cursor_up_position (d : doc) (count col : Z) : Z :=
+  if count <? 0 then down_delta d (- count) col else up_delta d count col.
+Definition get_cursor_down_position (d : doc) (count col : Z) : Z :=
+  if count <? 0 then up_delta d (- count) col else down_delta d count col.
 
-Definition cursor_down (s : hs) (count : Z) : option hs :=
-  if count <? 1 then None
-  else
-    let oc := original_column s in
-    let d := sdoc s in
-    let delta := translate_row_col_to_index d (cursor_position_row d + count) oc - cur s in
-    Some (set_pref (set_cursor s (cur s + delta)) (Some oc)).
+(* Buffer.cursor_up / cursor_down *)
+Definition cursor_up (s : hs) (count : Z) : hs :=
+  let oc := original_column s in
+  set_pref (set_cursor s (cur s + get_cursor_up_position (sdoc s) count oc)) (Some oc).
+
+Definition cursor_down (s : hs) (count : Z) : hs :=
+  let oc := original_column s in
+  set_pref (set_cursor s (cur s + get_cursor_down_position (sdoc s) count oc)) (Some oc).
 
 Definition go_start_of_line (s : hs) : hs :=
   set_cursor s (cur s + get_start_of_line_position (sdoc s) false).
 
 (* auto_up / auto_down with complete_state = None and selection_state = None *)
-Definition auto_up (c : cfg) (s : hs) (count : Z) (gts : bool) : option hs :=
+Definition auto_up (c : cfg) (s : hs) (count : Z) (gts : bool) : hs :=
   if 0 <? cursor_position_row (sdoc s) then cursor_up s count
   else
     let s1 := history_backward c s count in
-    Some (if gts then go_start_of_line s1 else s1).
+    if gts then go_start_of_line s1 else s1.
 
-Definition auto_down (c : cfg) (s : hs) (count : Z) (gts : bool) : option hs :=
+Definition auto_down (c : cfg) (s : hs) (count : Z) (gts : bool) : hs :=
   if cursor_position_row (sdoc s) <? line_count (sdoc s) - 1 then cursor_down s count
   else
     let s1 := history_forward c s count in
-    Some (if gts then go_start_of_line s1 else s1).
+    if gts then go_start_of_line s1 else s1.
 
 (* An edit of (text, cursor) computed by Model.BufferEdit, written back through
    _set_text / _set_cursor_position with their change notifications: a changed
@@ -226,9 +254,23 @@ Definition validate (c : cfg) (s : hs) (sc : bool) : hs * bool :=
 Definition append_string (h : hstore) (t : str) : hstore :=
   mkst (t :: ls h) (sto h ++ [t]) (loaded h).
 
-(* Buffer.append_to_history: history_strings[-1] is the head of
-   _loaded_strings *)
+(* Buffer.append_to_history: get_strings() loads the history first;
+   history_strings[-1] is the head of _loaded_strings *)
 Definition append_to_history (s : hs) : hs :=
+  let t := text s in
+  match t with
+  | [] => s
+  | _ =>
+      let h := ensure_loaded (store s) in
+      match ls h with
+      | [] => set_store s (append_string h t)
+      | x :: _ => if str_eqb x t then set_store s h else set_store s (append_string h t)
+      end
+  end.
+
+(* as it stood before the fix (finding C14-F1, repaired in /repo): only what
+   had been loaded so far was compared *)
+Definition append_to_history_pinned (s : hs) : hs :=
   let t := text s in
   match t with
   | [] => s
@@ -261,10 +303,8 @@ Definition load_start (s : hs) : hs :=
   | Some _ => s
   end.
 
-(* History.load(): first step fills _loaded_strings from the backend when not
-   yet loaded; every step reads item [i] of the live list. *)
-Definition ensure_loaded (h : hstore) : hstore :=
-  if loaded h then h else mkst (rev (sto h)) (sto h) true.
+(* History.load(): the first step calls _ensure_loaded; every step reads item
+   [i] of the live list. *)
 
 (* one item delivered to Buffer.load_history: appendleft + index shift *)
 Definition pop_step (s : hs) : hs :=
@@ -321,8 +361,6 @@ Definition ST_OK : Z := 0.
 Definition outcome := (Z * hs * option str)%type.
 
 Definition ok (s : hs) : outcome := (ST_OK, s, None).
-Definition of_opt (s : hs) (o : option hs) : outcome :=
-  match o with Some s' => ok s' | None => (E_ASSERT, s, None) end.
 Definition of_res (c : cfg) (s : hs) (r : res) : outcome :=
   match r with
   | Ok b _ => ok (write_back c s b)
@@ -336,8 +374,8 @@ Definition step_core (c : cfg) (s : hs) (o : op) : outcome :=
   | OGoto i =>
       if i <? - len (wl s) then (E_INDEX, set_wi_raw s i, None)
       else ok (go_to_history c s i)
-  | OAutoUp n g => of_opt s (auto_up c s n g)
-  | OAutoDown n g => of_opt s (auto_down c s n g)
+  | OAutoUp n g => ok (auto_up c s n g)
+  | OAutoDown n g => ok (auto_down c s n g)
   | OEnd => ok (end_of_history c s)
   | OInsert d => of_res c s (insert_text (sbuf s) d false true)
   | ODelBefore n => of_res c s (delete_before_cursor (sbuf s) n)
@@ -474,7 +512,7 @@ Definition dec_rule (x : sx) : option (vcond * vpos) :=
 
 Definition enc_state (s : hs) : list sx :=
   [ sx_list sx_str (wl s); A (wi s); A (cur s); sx_opt sx_str (hst s); sx_opt sx_Z (pref s);
-    A (vst s); sx_list sx_str (get_strings (store s)); sx_list sx_str (sto (store s)) ].
+    A (vst s); sx_list sx_str (loaded_view (store s)); sx_list sx_str (sto (store s)) ].
 
 Definition enc_outcome (x : outcome) : sx :=
   let '(st, s, r) := x in L (A st :: sx_opt sx_str r :: enc_state s).
